@@ -35,6 +35,16 @@ def check(ctx: Ctx, rep: Report):
     rep.rule("C16.R3", "the id cache follows the capability set: writers of sensors()' dependencies invalidate _sensors_map", 4)
     rep.rule("C16.R4", "single and bulk paths use the same decoder summary", 250)
     rep.rule("C16.R5", "an id listed twice by sensors() resolves to the same definition on both paths (bulk: last one stored; single lookup must be last-wins too)", 2)
+    rep.rule("C16.R6", "the bulk value of every listed sensor is decoded from registers the bulk request fetched (shared with C14.R1): a value made of missing bytes cannot equal what the single read gets from the register itself", 1)
+    from .c14 import check as _c14_check
+    _sub = Report("C14", rep.tier)
+    _c14_check(ctx, _sub)
+    _nv = 0
+    for o in _sub.obligations:
+        if o.rule == "C14.R1" and o.status != "OK":
+            _nv += 1
+            rep.obligations.append(type(o)("C16.R6", o.key, o.where, o.what, o.status, o.detail))
+    rep.ok("C16.R6", "window:summary", "goodwe/", "%d window obligations of C14.R1 evaluated, %d not satisfied" % (sum(1 for o in _sub.obligations if o.rule == "C14.R1"), _nv))
     prog = ctx.prog
     tabs, dec = tables_ctx(ctx), decoders_ctx(ctx)
     # ---- count expression of _read_sensor / _read_setting
@@ -181,7 +191,8 @@ def count_form(ctx: Ctx, fn):
         if norm(r.args[0]) != "%s.offset" % param:
             return False, "request address is %s, not %s.offset" % (norm(r.args[0]), param)
         from ..astutil import expand_locals
-        cnt = expand_locals(r.args[1], fn.node)
+        from ..astutil import inline_pure_calls
+        cnt = inline_pure_calls(ctx.res, fn, expand_locals(r.args[1], fn.node))
         # evaluate the count expression for sizes 0..16 with the constant evaluator
         for size in range(0, 17):
             class _S:   # attribute bag
